@@ -349,7 +349,15 @@ def check_special_cases(ctx):
         else:
             ctx.check(got == want, R3, pw.key + ":" + tag, okd, f"{what} is emitted as {got}: must be {want[0]}{want[1]}", pw)
     extra = set(found) - {-1.0, 0.5, "sympy.Rational(1, 2)", "sympy.S.Half"}
-    ctx.check(not extra, R3, pw.key + ":no-other-special-case", "no further exponent is special-cased", f"exponents {sorted(map(str, extra))} are special-cased too", pw)
+    from ..common import exit_exprs as _exits
+
+    n_exits = len(_exits(pw.node))
+    if not extra and n_exits != len(found) + (1 if default else 0):
+        # the if/elif chain that was walked does not account for every exit of the function (another shape, e.g. a merged conditional
+        # return): an exponent special-cased there would go unseen, so silence here proves nothing
+        ctx.undecided(R3, pw.key + ":no-other-special-case", f"{n_exits} exits but {len(found)} recognised special cases" + (" and a default" if default else ""), pw)
+    else:
+      ctx.check(not extra, R3, pw.key + ":no-other-special-case", "no further exponent is special-cased", f"exponents {sorted(map(str, extra))} are special-cased too", pw)
 
 
 def check_registry(ctx):
